@@ -20,7 +20,7 @@ RULE = (common.GEN + 'every state (all kinds, history and final included) and tr
         'interleaving of code and contract probes implied by the returned micro steps and against the model value of v / __old__.v; then '
         'for EVERY contract-evaluation occurrence k of run A (thorough) or 12 drawn occurrences (quick) run B_k replays the same script '
         'with occurrence k returning false and must raise the right error class with .obj/.condition, with a probe log equal to the '
-        'prefix of A; a listener attached to every run B_k must not have been told that a state was exited before its failing postcondition. non-trivial = one injected failure position; distinct = distinct (chart, condition, occurrence context)')
+        'prefix of A; a listener attached to every run B_k must not have been told that a state was exited before its failing postcondition, nor anything at all after the failure; the extended conditions of a state also log active(<that state>). non-trivial = one injected failure position; distinct = distinct (chart, condition, occurrence context)')
 COMPONENTS = {'real': common.REAL, 'stub': common.STUB + ['contract condition bodies: probe calls whose verdict the simulator decides']}
 ASSUMPTIONS = common.ASSUME + ['the order in which the invariants of different active states are evaluated at the end of a step is not constrained']
 LEVEL_TEXT = ('per sampled (chart, history) the space of single failing contract occurrences is enumerated completely in the thorough tier '
@@ -186,7 +186,7 @@ def run(ch, tier):
             if e[0] != 'cond' or len(e) < 7:
                 continue
             lower, upper, recv = flags[min(i, len(flags) - 1)]
-            s_na, s_ea, r_ea = e[6]
+            s_na, s_ea, r_ea = e[6][:3]
             res.stats['sent_received_predicates_checked'] += 1
             for nm, got in (('na', s_na), ('ea', s_ea)):
                 if nm in lower:
@@ -195,6 +195,15 @@ def run(ch, tier):
                     return res.fail('sent-predicate', "condition #%d (%s) at position %d of the step saw sent(%r) = %r; events sent in this macro step "
                                     'before the current micro step: %s, including it: %s' % (
                                         e[1], own[e[1]][0] + ' ' + own[e[1]][1], i, nm, got, sorted(lower), sorted(upper)), **ctx)
+            if len(e[6]) > 3:
+                # a state's own condition: before the state is entered / after it is exited it is not active, its invariants
+                # are checked while it is
+                kind_ = own[e[1]][1]
+                res.stats['active_of_own_state_checked_in_' + kind_] += 1
+                if bool(e[6][3]) != (kind_ == 'inv'):
+                    return res.fail('active-predicate', "%s condition #%d of %s saw active(%r) = %r; preconditions are checked before the state is "
+                                    'entered, postconditions after it is exited, invariants while it is active' % (
+                                        kind_, e[1], own[e[1]][0], own[e[1]][3], e[6][3]), **ctx)
             if bool(r_ea) != (recv == 'ea'):
                 return res.fail('received-predicate', "condition #%d (%s) at position %d of the step saw received('ea') = %r while the event being "
                                 'processed is %r' % (e[1], own[e[1]][0] + ' ' + own[e[1]][1], i, r_ea, recv), **ctx)
@@ -237,7 +246,7 @@ def run(ch, tier):
         ok_obj = (tid(obj) == key) if is_t and hasattr(obj, 'action') else (getattr(obj, 'name', None) == key and not is_t)
         if not ok_obj:
             return res.fail('wrong-error-object', 'error for %s carries obj=%r' % (label, obj), **ctx)
-        want_cond = cond_code(entry[1], kind, is_t, True)
+        want_cond = cond_code(entry[1], kind, is_t, True, None if is_t else key)
         if exc.condition != want_cond:
             return res.fail('wrong-error-condition', 'error for %s #%d carries condition %r, expected %r' % (label, entry[1], exc.condition, want_cond), **ctx)
         Lb = simb.P.log
@@ -247,6 +256,10 @@ def run(ch, tier):
             return res.fail('code-ran-after-failure' if len(Lb) > cut else 'prefix-differs',
                             'with occurrence %d failing the run executed %d probe events, the fault-free prefix has %d; first difference at %d: %r vs %r' % (
                                 k, len(Lb), cut, i, Lb[i] if i < len(Lb) else None, L[i] if i < cut else None), **ctx)
+        late = [h for h in heard if h[2] >= cut]
+        if late:
+            return res.fail('notified-after-failure', 'after occurrence %d (%s, %s) evaluated to false listeners were still told %s' % (
+                k, label, kind, [h[0] for h in late]), **ctx)
         if kind == 'post' and not is_t:
             # "postconditions just after its exit code": nobody is told that the state was exited in between
             st_ = sp.states[key]
